@@ -17,7 +17,10 @@ RULE = ("tuples of 1..4 frames (0..6 rows, 1..4 columns) with overlapping / disj
 
 # column names incl. names that contain other names ("ab" / "a" / "b", "d_e" / "d" / "e"): a name is a key, never a pattern
 FAMILIES = {"a": ["int", "float", "bool"], "b": ["str", "str", "strlong"], "c": ["date"], "d": ["float", "int"], "e": ["timedelta"], "f": ["datetime"],
-            "ab": ["int", "float"], "d_e": ["float"]}
+            "ab": ["int", "float"], "d_e": ["float"],
+            # one name that is a date column in some frames and a datetime column in others (a daily extract stacked with a
+            # time-stamped one): NumPy promotes to the finer unit, every instant is kept
+            "t": ["date", "datetime"]}
 # objects with a history are also left grouped by an earlier group_by (harness/warm.py), except for `modify`, which is
 # documented as group-wise on a grouped receiver
 WARM_GROUPED = True
@@ -99,6 +102,14 @@ def gen_cases(ctx):
         {"op": "rbind", "frames": [{"n": 0, "cols": [i2("a", []), i2("b", [], "str")]}, {"n": 2, "cols": [i2("d", [1.5, 2.5], "float"), i2("a", [1, 2])]}]},
         {"op": "rename", "frames": [{"n": 2, "cols": [i2("a", [1, 2]), i2("d", [3, 4])]}], "to_from": [["d", "a"], ["a", "d"]]},
     ]
+    # three frames, one WITHOUT the column and two that hold it in different precisions, the coarser first (and every other
+    # order): what a later frame brings may not be cut down to what an earlier one could hold
+    day = {"name": "t", "kind": "date", "vals": [18000, None]}
+    stamp = {"name": "t", "kind": "datetime", "vals": [1600000000000001, 1600000000123456]}
+    none = {"n": 2, "cols": [i2("a", [1, 2])]}
+    fd, fs = {"n": 2, "cols": [i2("a", [3, 4]), day]}, {"n": 2, "cols": [i2("a", [5, 6]), stamp]}
+    for order in ([none, fd, fs], [fd, none, fs], [fd, fs, none], [none, fs, fd], [fs, none, fd], [fd, fs], [fs, fd]):
+        cases.append({"op": "rbind", "frames": order})
     # one name given, other names contained in it (and the reverse): names are keys, never patterns
     for names, drop in ((["a", "b", "ab"], ["ab"]), (["ab", "a", "b"], ["a"]), (["d", "e", "d_e"], ["d_e"]), (["d_e", "d"], ["d"]), (["a", "ab"], ["ab"])):
         fr = gen_frame(rng, names, nrow=3)
@@ -237,6 +248,9 @@ def cell_eq(kind, src, out, out_na):
         return False
     if kind in ("int", "float", "bool"):
         return num(src) == num(out)
+    if kind == "date" and src != out:
+        # a date stacked with datetimes is that day's midnight in the finer unit (microseconds here)
+        return isinstance(out, int) and src * 86400000000 == out
     return src == out
 
 
